@@ -57,6 +57,8 @@ def _case(draw, hist=False):
     flat = sorted(set(D[r][c] for r in range(n) for c in range(r + 1, n) if D[r][c] != inf))
     # exactly an entry only for synthetic matrices (the same float reaches the comparison, so "within" is well defined)
     thr = draw(gen.threshold_between(flat, exact_ok=not kind.startswith('dtw'), allow_none=True, none_weight=3))
+    if draw(st.integers(0, 11)) == 0:
+        thr = 0.0       # the boundary value: only identical series (distance exactly 0) may be merged
     case['max_dist'] = thr
     case['hook'] = draw(st.sampled_from(['none', 'record', 'weight', 'order']))
     case['weights'] = [draw(st.integers(1, 4)) for _ in range(n)]
